@@ -48,13 +48,13 @@ PROPS = {
         explanation='Verus (unbounded): maybe_reduce case table; Runner::reduce returns the left fold of all worker results (each exactly once), None only for zero workers. Verus (unbounded, real text with RW17-RW19): in the three reduce kernel tasks the per-worker accumulator is None exactly when no chunk pulled so far had a survivor (a chunk without survivors never resets it), and the accumulator seed of the hand-unrolled filter_map arm passed the filter. Kani (bounded): each reduce kernel task folds exactly the survivors of its blocks with survivors-1 operator calls; glue and API wrappers (fold, sum, min, max, *_by, *_by_key) agree with the sequential fold; None iff nothing survives. ' + MC_TEXT,
     ),
     'C04': dict(
-        level='model_checking', verus_units=['core'],
+        level='model_checking', verus_units=['core', 'redtasks'],
         kani=True,
         kani_select=dict(quick=r'^k_task_\w+_cnt_n|^k_glue_(map_fil|filtermap_fil)_cnt_n3c1|^k_api_par2_(empty_count|map_fil_count|fil_for_each)',
                          thorough=r'^k_task_\w+_cnt_|^k_glue_\w+_cnt_|^k_api_par2_\w+_(count|for_each)_n'),
         trusted_base=[T1, T5, T6, A64, ARITH, RSCHED, STUBS, MODEL],
         assumptions=[TASK_BOUND],
-        explanation='Verus (unbounded): Runner::reduce sums every worker count exactly once. Kani (bounded): each count kernel task (incl. the hand-rolled nested loop of filtermap_fil_cnt) returns the number of survivors among exactly the elements delivered to it; glue and count()/for_each() through the API agree with std; for_each calls its closure once per survivor. ' + MC_TEXT,
+        explanation='Verus (unbounded): Runner::reduce sums every worker count exactly once. Verus (unbounded, real text with RW19-RW21): in the three count kernel tasks the worker's count is the sum of the survivors of all chunks it pulled (no overflow while the total fits in usize). Kani (bounded): each count kernel task (incl. the hand-rolled nested loop of filtermap_fil_cnt) returns the number of survivors among exactly the elements delivered to it; glue and count()/for_each() through the API agree with std; for_each calls its closure once per survivor. ' + MC_TEXT,
     ),
     'C05': dict(
         level='model_checking', verus_units=[],
